@@ -11,6 +11,8 @@ from ..runner import Divergence, Driver, Env, Outcome, Violation, diff_streams
 
 THEOREMS = [
     "C37_source_shape",
+    "C37_source_shape_sql",
+    "C37_source_shape_binding",
     "C37_invariant",
     "C37_active_was_picked_here",
     "C37_pick_is_last_pick_event",
@@ -19,10 +21,21 @@ THEOREMS = [
     "C37_add_clears",
     "C37_delete_current_clears",
     "C37_each_clear_needed",
+    # whole-history statements (extension)
+    "C37_unique_ids",
+    "C37_active_continuously_since_pick",
+    "C37_kept_means",
+    "C37_current_environment_real",
+    # AuthService objects held across environment changes (model M16b)
+    "C37_held_extends_fresh",
+    "C37_pickedHere_means",
+    "C37_statement_fresh_services",
+    "C37_held_services_refuted",
+    "C37_held_services_partial",
 ]
 EXPLANATION = (
     "Lean model M16 of llamactl's SQLite configuration: tables environments/profiles (profiles keyed by (name, api_url)), "
-    "settings current_environment_api_url/current_profile (a name only), the twelve service operations of "
+    "settings current_environment_api_url/current_profile (a name only), the service operations of "
     "EnvService/AuthService/ConfigManager that change them with their error branches, and a ghost field recording the "
     "latest select/create event together with the environment current at that moment. C37_invariant (induction over op "
     "lists): after every operation sequence the current environment is known or the default and the active profile is "
@@ -35,19 +48,39 @@ EXPLANATION = (
     "compiled model, comparing result, current environment, pointer, active profile, ghost and both tables after every op. "
     "Search: after every op on the real services - current environment stored or default; active profile belongs to the "
     "current environment, is a stored row, the latest select/create event was made while the current environment was "
-    "current, and this profile was itself picked at some time (the harness keeps its own record of the events)."
+    "current, and this profile was itself picked at some time (the harness keeps its own record of the events). "
+    "Extension: (T) C37_unique_ids (profile ids pairwise different after every history); C37_active_continuously_since_pick "
+    "(the active profile is the very row - same id - that the latest select/create event designated, that event happened while "
+    "its environment was current, and in every state since then this environment was current, this row was active and no "
+    "further select/create happened; C37_kept_means spells the recursive predicate out); C37_current_environment_real "
+    "(get_current_environment() never fabricates an environment: stored row or built-in default, third branch dead on all "
+    "reachable configurations); the token-refresh path refresh_to_db (update by id in any environment) is an operation of the "
+    "model; model M16b makes the binding of an AuthService a parameter (stepHeld; the fresh model is its diagonal, "
+    "C37_held_extends_fresh): C37_held_services_refuted (a witness with two operations through services bound to a "
+    "non-current environment activates a profile nobody picked there; replayed on the real services on every run), "
+    "C37_held_services_partial (if every select/create goes through a service of the then-current environment - stale services "
+    "only delete/update - the property holds, in the property's own words via pickedHere / C37_pickedHere_means; "
+    "C37_statement_fresh_services: for fresh services this is the statement already proved). (tie) C37_source_shape_sql: all 24 "
+    "SQL statements of ConfigManager as (method, verb, table, WHERE columns, SET/ORDER/LIMIT/literal key), regenerated; the "
+    "settings row of the current environment is never deleted; profiles are never addressed by name alone; ids unique "
+    "(migration 0002). C37_source_shape_binding: every AuthService call into an environment-taking ConfigManager method passes "
+    "self.env.api_url, current_auth_service() binds to the store's current environment read on every call, delete_profile "
+    "clears on the bare name. (K) new op kinds refresh|PID|UID|TOK and held|URL|<op>; held-service sequences. (S) new rules "
+    "from the harness's own event log: a profile becomes active only by a select/create event, a non-pick operation never "
+    "changes which row is active, and some event named the active profile through a service of its environment while current."
 )
 LEVEL_TEXT = "proof (invariant over all operation sequences) + per-op correspondence on the real SQLite-backed services"
 ASSUMPTIONS = [
-    "every profile operation runs on a fresh EnvService.current_auth_service() (an AuthService bound to the environment "
-    "current when the operation starts), as every CLI command does; a long-lived AuthService used across an environment "
-    "switch is outside the model",
+    "the property theorems (C37_invariant, ...) are about histories in which every profile operation runs on a fresh "
+    "EnvService.current_auth_service() (an AuthService bound to the environment current when the operation starts), as every "
+    "CLI command does; AuthService objects bound to another environment are modelled (M16b): with them the statement is "
+    "refuted (C37_held_services_refuted) unless they are used for delete/update only (C37_held_services_partial)",
     "update_profile is exercised with changes that keep (id, name, api_url) (api_key/api_key_id/device_oidc), the only "
     "use in the CLI; renaming or moving a profile through the raw ConfigManager API is outside the model",
     "one process at a time on the database (no concurrent llamactl invocations); each operation's SQLite transactions "
     "are taken as atomic",
-    "the settings row current_environment_api_url always exists (seeded by migration 0001, never deleted): observed on "
-    "every run, not proved",
+    "the settings row current_environment_api_url always exists: seeded by migration 0001 (C37_source_shape) and no statement "
+    "of ConfigManager deletes it (C37_source_shape_sql); a database edited by other tools is outside the model",
     "SQLite TEXT equality and ORDER BY name (BINARY collation) are modelled as code-point equality/order of the strings; "
     "strings with NUL or lone surrogates are not generated",
     "network side of the services (probe/auto_update_env version fetch, remote API-key revocation in delete_profile, "
@@ -58,6 +91,7 @@ TRUSTED_EXTRA = [
     "harness/cliconfig.py: name-only stubs for llama_agents.cli.auth.client, llama_agents.core.client.manage_client, "
     "llama_agents.core.schema(.projects) (network clients absent from the sandbox); LLAMACTL_CONFIG_DIR temp dirs",
     "harness/gen/cliconfig.py (AST/SQL extraction into WfModel/GenCliConfig.lean)",
+    "harness/gen/cliconfig_sql.py (SQL statement shapes and AuthService call shapes into WfModel/GenCliConfigSql.lean)",
     "sqlite3 module / SQLite library of the runtime",
 ]
 
@@ -70,9 +104,13 @@ UIDS = ["u1", "u2", "u3"]
 PROJECTS = ["p1", "p1", "p2", "p2", "proj-3", "proj-3", "x", "x", "y", "z", "", " ", "\t\n", "\u00a0", "\u200b", " p ", "\u2003\u3000"]
 MINVERS = [None, None, "0.3.0", "1.0"]
 WEIGHTS = [("env-add", 10), ("env-upsert", 4), ("env-switch", 13), ("env-del", 10), ("create-token", 18), ("create-oidc", 8),
-           ("select", 10), ("select-any", 6), ("delete", 8), ("set-project", 3), ("update-key", 4), ("destroy", 1), ("probe", 7)]
+           ("select", 10), ("select-any", 6), ("delete", 8), ("set-project", 3), ("update-key", 4), ("destroy", 1), ("probe", 7),
+           ("refresh", 5)]
+PICK_KINDS = ("create-token", "create-oidc", "select", "select-any")
+AUTH_KINDS = PICK_KINDS + ("delete", "set-project", "update-key")
 MALFORMED = ["", "select", "select|1|2", "select|x", "env-add|104|2|~", "env-add|104|1", "create-token|112", "nonsense|1|2",
-             "select-any|1", "env-switch|1,,2", "update-key|1|~", "destroy|", "create-oidc|1|2|3", "delete|-1", "env-del|1.2"]
+             "select-any|1", "env-switch|1,,2", "update-key|1|~", "destroy|", "create-oidc|1|2|3", "delete|-1", "env-del|1.2",
+             "refresh|x|1|2", "refresh|1|2", "held", "held|104", "held|104|nonsense", "held|1,,2|select-any", "held|104|held|104|select-any"]
 
 
 def _pools() -> tuple[list[str], list[str]]:
@@ -93,9 +131,23 @@ class Shadow:
         self.cur = self.default
         self.envs = {self.default}
         self.names: dict[str, set[str]] = {}
+        self.created = getattr(self, "created", 0)  # upper bound of the creation counter (survives destroy, like the ids)
 
     def note(self, op: list) -> None:
         k = op[0]
+        if k == "held":
+            inner = op[2]
+            if inner[0] in AUTH_KINDS:
+                cur, self.cur = self.cur, op[1]  # names land in the environment the service is bound to
+                try:
+                    self.note(inner)
+                finally:
+                    self.cur = cur
+            else:
+                self.note(inner)
+            return
+        if k in ("create-token", "create-oidc"):
+            self.created += 1
         if k == "env-add":
             self.envs.add(op[1])
             self.cur = op[1]
@@ -158,7 +210,38 @@ def gen_op(rng, urls: list[str], names: list[str], sh: Shadow) -> list:
         return [kind, name, rng.choice(KEYS), rng.choice([None, "kid-1", "kid-2"])]
     if kind == "probe":
         return [kind, rng.random() < 0.5, rng.choice(MINVERS)]
+    if kind == "refresh":
+        # mostly an id that was handed out (the profile may be gone, or live in another environment), sometimes one never used
+        pid = rng.randrange(sh.created + 1) if rng.random() < 0.9 else sh.created + rng.randrange(1, 4)
+        return [kind, pid, rng.choice(UIDS), "r%d" % rng.randrange(4)]
     return [kind]
+
+
+def gen_held_case(rng, urls: list[str], names: list[str], stale_picks: bool) -> dict:
+    """Like gen_case, but profile operations go through AuthService objects bound to an environment that need not be the
+    current one.  stale_picks=False: only delete / set-project / update-key use a stale binding (the guard of
+    C37_held_services_partial); True: selecting and creating too (the statement is refuted there: K only)."""
+    n = rng.randint(6, 30)
+    sh = Shadow(urls[0])
+    ops: list[list] = [["env-upsert", rng.choice(urls[1:]), rng.random() < 0.5, None]]
+    sh.note(ops[0])
+    if rng.random() < 0.5:
+        ops += [["create-token", "p1", None], ["env-add", rng.choice(urls[1:]), False, None], ["create-token", "p2", None]]
+        for op in ops[1:]:
+            sh.note(op)
+    while len(ops) < n:
+        op = gen_op(rng, urls, names, sh)
+        if op[0] in AUTH_KINDS and rng.random() < 0.7 and (stale_picks or op[0] not in PICK_KINDS or rng.random() < 0.3):
+            others = sorted(sh.envs - {sh.cur}) or [NOWHERE]
+            u = rng.random()
+            if op[0] in PICK_KINDS and not stale_picks:
+                bound = sh.cur  # a second service object for the current environment: same as fresh
+            else:
+                bound = sh.cur if u < 0.2 else (rng.choice(others) if u < 0.9 else rng.choice(urls + [NOWHERE]))
+            op = ["held", bound, op]
+        sh.note(op)
+        ops.append(op)
+    return {"ops": ops, "held": "any" if stale_picks else "safe"}
 
 
 def gen_case(rng, urls: list[str], names: list[str]) -> dict:
@@ -184,14 +267,17 @@ def gen_case(rng, urls: list[str], names: list[str]) -> dict:
     return {"ops": ops}
 
 
-def run_case(case: dict, out: Outcome) -> tuple[list[str], list[str], list[Violation]]:
-    """Run one op sequence on the real services.  Returns (op lines, implementation output lines, violations)."""
+def run_case(case: dict, out: Outcome, final: dict | None = None) -> tuple[list[str], list[str], list[Violation]]:
+    """Run one op sequence on the real services.  Returns (op lines, implementation output lines, violations);
+    `final`, when given, receives the last observation (active profile, current environment) and the event log."""
     impl = load_impl()
     default_url = impl["DEFAULT_URL"]
     real = RealConfig()
     lines, impl_out, viols = ["reset"], ["reset"], []
     cur_before = default_url
     bad_before: set[str] = set()  # rules already violated after the previous op: report a violation where it first appears
+    act_before: str | None = None  # uuid of the profile that was active after the previous op
+    stale_pick_seen = False        # a select/create went through a service bound to a non-current environment (held cases only)
     try:
         for i, op in enumerate(case["ops"]):
             lines.append(op_line(op))
@@ -199,8 +285,14 @@ def run_case(case: dict, out: Outcome) -> tuple[list[str], list[str], list[Viola
                 impl_out.append("bad-op")
                 out.count("op:malformed")
                 continue
+            picks_before = real.n_picks
             res = real.apply(op)
             out.evaluations += 1
+            if op[0] == "held":
+                stale = op[1] != cur_before
+                out.count(f"op:held:{op[2][0]}:{'stale' if stale else 'same-env'}")
+                if stale and op[2][0] in PICK_KINDS:
+                    stale_pick_seen = True
             out.count("op:" + op[0])
             out.count("res:" + res.split(" ")[0].split(":")[0])
             obs = real.observe()
@@ -237,6 +329,8 @@ def run_case(case: dict, out: Outcome) -> tuple[list[str], list[str], list[Viola
                          f"active profile {act.name!r} belongs to {act.api_url!r}, current environment is {cur.api_url!r}")
                 elif not any(r[0] == act.id and r[1] == act.name and r[2] == act.api_url for r in prof_rows):
                     flag(f"C37/active_profile_not_stored:after={op[0]}", f"active profile {act.name!r} is not a stored profile row")
+                elif stale_pick_seen:
+                    out.count("held:pick-rules-off-after-stale-pick")
                 elif real.pick is None or real.pick[1] != cur.api_url:
                     flag(f"C37/selection_from_other_env:after={op[0]}",
                          f"active profile {act.name!r} of {cur.api_url!r}: the latest select/create event {real.pick!r} was made while "
@@ -246,7 +340,30 @@ def run_case(case: dict, out: Outcome) -> tuple[list[str], list[str], list[Viola
                          f"active profile {act.name!r} of {cur.api_url!r} was never selected or created while that environment was current")
             else:
                 out.count("active:none")
+            # ---- (S) whole-history rules (C37_active_continuously_since_pick / C37_held_services_partial), from the
+            # harness's own event log: a profile can only *become* active by a select/create event, an operation that is
+            # not such an event changes neither the active profile's identity nor the current environment under it, and
+            # (while every select/create went through a service of the then-current environment) some event named this
+            # profile through a service of its environment while that environment was current
+            was_pick = real.n_picks > picks_before
+            kind = op[2][0] if op[0] == "held" else op[0]
+            if act is not None and not was_pick:
+                if act_before is None:
+                    flag(f"C37/active_without_pick_event:after={kind}",
+                         f"profile {act.name!r} of {act.api_url!r} became active by an operation that neither selects nor creates")
+                elif act_before != act.id:
+                    flag(f"C37/active_identity_changed:after={kind}",
+                         f"the active profile changed to {act.name!r} of {act.api_url!r} (another row) without a select/create event")
+                else:
+                    out.count("history:active-kept-by-non-pick-op")
+            if act is not None and not stale_pick_seen and (act.name, act.api_url, act.api_url) not in real.events:
+                flag(f"C37/no_pick_event_here:after={kind}",
+                     f"active profile {act.name!r} of {act.api_url!r}: no operation selected or created that name through a service of "
+                     f"this environment while it was current")
+            act_before = None if act is None else act.id
             bad_before = bad_now
+            if final is not None:
+                final.update(active=None if act is None else (act.name, act.api_url), cur=cur.api_url, events=list(real.events))
         if any(o.startswith("profile ") for o in impl_out) and any(o[0] in ("env-switch", "env-del", "env-add") for o in case["ops"]):
             out.nontrivial(json.dumps(case["ops"], sort_keys=True))
     finally:
@@ -258,6 +375,10 @@ def run(env: Env) -> Outcome:
     out = Outcome()
     out.rule = ("op sequences (6-40 ops) over 4+1 environment URLs, token/OIDC/keyless profile creation with colliding names, "
                 "select/select-any/delete/update/set-project/destroy, server probes of the current environment (auto_update_env), 30% seeded with same-named profiles in two environments; "
+                "token refresh by profile id (refresh_to_db; ids of live, deleted, other-environment and never-issued profiles); "
+                "plus held-service sequences (6-30 ops, half of the profile operations through an AuthService bound to the current, "
+                "another stored, or an unknown environment; 'safe' = stale bindings only on delete/set-project/update-key, all monitors on; "
+                "'any' = also on select/create, pick-based monitors off after the first stale pick, correspondence only); "
                 "non-trivial = at least one profile created and at least one environment change; distinct by op list")
     urls, names = _pools()
     cases: list[dict] = []
@@ -290,18 +411,49 @@ def run(env: Env) -> Outcome:
                  ["env-add", B, True, None], ["create-oidc", "p2", "u2", "b@x.io", "t1"], ["select", "a@x.io"], ["env-switch", d], ["env-switch", B],
                  ["select", "a@x.io"], ["env-del", B]]},
         {"ops": [["raw", m] for m in MALFORMED[:5]] + [["create-token", "p", None]] + [["raw", m] for m in MALFORMED[5:]] + [["select-any"]]},
+        # token refresh by id (refresh_to_db): the selected profile, a profile of another environment, a deleted one, an id never
+        # handed out; changing the user id so that a later login finds the other row
+        {"ops": [["create-oidc", "p", "u1", "a@x.io", "t0"], ["refresh", 0, "u1", "r1"], ["env-add", B, True, None],
+                 ["create-oidc", "p", "u2", "a@x.io", "t0"], ["refresh", 0, "u1", "r2"], ["refresh", 1, "u1", "r3"], ["refresh", 7, "u1", "r0"],
+                 ["create-oidc", "p", "u1", "b@x.io", "t1"], ["delete", "a@x.io"], ["refresh", 1, "u3", "r1"], ["env-switch", d],
+                 ["refresh", 0, "u2", "r2"], ["select-any"], ["create-oidc", "q", "u2", "c@x.io", "t2"], ["destroy"], ["refresh", 0, "u1", "r3"]]},
+        # services bound to another environment used for deleting and updating only (guard of C37_held_services_partial):
+        # a b-bound service deletes/updates b's profiles while the default environment is current; deleting the *name* that is
+        # selected here clears the selection although the deleted row belongs to b
+        {"held": "safe",
+         "ops": [["create-token", "p1", None], ["env-add", B, False, None], ["create-token", "p2", "abc"], ["create-token", "p3", None],
+                 ["env-switch", d], ["select", "default"], ["held", B, ["set-project", "abc****bc", "p9"]],
+                 ["held", B, ["update-key", "default", "k", "kid-1"]], ["held", B, ["delete", "abc****bc"]], ["held", d, ["select", "default"]],
+                 ["held", NOWHERE, ["delete", "nope"]], ["held", B, ["delete", "default"]], ["select-any"], ["held", d, ["create-token", "p4", "abc"]]]},
     ]
+    # the witness of C37_held_services_refuted, replayed on the real services (K compares it like every case; the selection
+    # rules are off after its first stale pick; what the theorem says is checked below on the real answers)
+    witness = {"held": "any",
+               "ops": [["env-upsert", B, False, None], ["held", B, ["create-token", "q", None]], ["env-switch", B], ["held", d, ["select", "default"]]]}
+    corpus.append(witness)
     cases += corpus
     n = env.budget(220, 5000)
+    nh = env.budget(32, 700)
     if env.deep:
         n = min(n, 2500)  # widened search after a broken proof/correspondence: bounded
+        nh = min(nh, 300)
     cases += [gen_case(env.rng, urls, names) for _ in range(n)]
+    cases += [gen_held_case(env.rng, urls, names, stale_picks=(j % 2 == 1)) for j in range(nh)]
     all_lines: list[str] = []
     all_impl: list[str] = []
     owner: list[int] = []
     for ci, case in enumerate(cases):
-        lines, impl_out, viols = run_case(case, out)
+        final: dict | None = {} if case is witness else None
+        lines, impl_out, viols = run_case(case, out, final)
         out.violations += viols
+        out.count("case:" + ("fresh-services" if "held" not in case else "held-services-" + case["held"]))
+        if final is not None:
+            # C37_held_services_refuted on the real code: b's profile is active, and no operation selected or created its
+            # name through a service of b while b was current
+            act = final.get("active")
+            ok = act == ("default", B) and final.get("cur") == B and (act[0], B, B) not in final.get("events", [])
+            out.count("witness:held-services-refutation-" + ("reproduced" if ok else "NOT-reproduced"))
+            out.sample({"held_witness": case["ops"], "active": act, "events(name,bound,current)": final.get("events"), "reproduced": ok})
         all_lines += lines
         all_impl += impl_out
         owner += [ci] * len(lines)
